@@ -184,7 +184,7 @@ from .tlc import MachineryError, cfg_text, run_tlc
 
 HERE = os.path.dirname(os.path.abspath(__file__))
 DEPS = [os.path.join(HERE, "fixrec.py"), os.path.join(HERE, "fixloop_replay.py")]
-SAFETY = ["TypeOK", "AdoptedTreesValid", "NoRevisit", "PrevIsPath", "LimitRollback", "IdempotentIfAcyclic"]
+SAFETY = ["TypeOK", "AdoptedTreesValid", "NoRevisit", "PrevIsPath", "LimitRollback", "IdempotentIfAcyclic", "PostPhaseIdle"]
 ALL = {"Phases": {"main", "post"}, "Compats": {True, False}}
 
 
